@@ -34,6 +34,13 @@ def names_in_expr(e: ast.AST) -> set[str]:
 def run(chk: Check, eng: Engine) -> None:
     chk.rule("R04-e", "scanner leaves carry text sliced from the input word, and the Earley column advance equals the consumed length times the columns-per-byte constant", floor=10)
     chk.rule("R04-f", "in complete mode Terminal.check accepts only on a complete (non-partial) match", floor=1)
+    chk.rule("R04-g", "a memoised forest is served only to requests of the same parsing mode and start symbol (the memo key covers them)", floor=1)
+    from .c12 import memo_attribute, memo_helpers, rule_e as _key_rule
+
+    _parser = eng.cls(f"{PMOD}.parser", "Parser")
+    _memo = memo_attribute(eng, _parser)
+    _g, _s = memo_helpers(_parser, _memo)
+    _key_rule(chk, eng, _parser, _memo, _g, _s, rule="R04-g", only={"mode", "start", "word"})
     chk.rule("R04-a", "the public parse API yields only trees for which every constraint's check() is true", floor=2)
     chk.rule("R04-b", "trees leave the parser only through collapse() unless control-flow nodes were asked for; helper-symbol prefixes agree between writers and reader", floor=12)
     chk.rule("R04-c", "an exception raised while checking a constraint rejects the input", floor=3)
@@ -364,6 +371,7 @@ _IP = "src/fandango/language/grammar/parser/iterative_parser.py"
 _R = "src/fandango/language/grammar/nodes/repetition.py"
 _CMP = "src/fandango/constraints/comparison.py"
 MUTANTS = [
+    M("forest-key-drops-mode", _P, "        cache_key = (word, start, mode, hookin_parent, starter_bit)\n", "        cache_key = (word, start, hookin_parent, starter_bit)\n", "R04-g"),
     M("complete-check-partial-regex", "src/fandango/language/symbols/terminal.py", "                match = re.match(symbol, check_word)  # type: ignore", "                match = regex.compile(symbol).match(check_word, partial=True)  # type: ignore", "R04-f"),
     M("regex-leaf-uses-offset-before-reset", _IP, "            tree = ParserDerivationTree(Terminal(check_word[:match_length]))\n            if state.is_incomplete:\n                next_state.children[-1] = tree\n            else:\n                next_state.append_child(tree)\n            table[\n                k + ((table_offset - state.incomplete_idx) * table_idx_multiplier)\n            ].add(next_state)",
       "            tree = ParserDerivationTree(Terminal(check_word[:match_length]))\n            if state.is_incomplete:\n                next_state.children[-1] = tree\n            else:\n                next_state.append_child(tree)\n            table[\n                k + ((incomplete_table_offset - state.incomplete_idx) * table_idx_multiplier)\n            ].add(next_state)", "R04-e"),
@@ -383,5 +391,10 @@ MUTANTS = [
     M("parser-loses-star-handler", _IP, "    def visitStar(self, node: Star) -> IterativeParserVisitorReturnType:", "    def visit_star(self, node: Star) -> IterativeParserVisitorReturnType:", "R04-d"),
 ]
 TWINS = [
+    M("twin-forest-memo-behind-helpers", _P, "        cache_key = (word, start, mode, hookin_parent, starter_bit)\n        forest: list[DerivationTree]\n        if cache_key in self._cache:\n            forest = self._cache[cache_key]\n",
+      "        cache_key = (word, start, mode, hookin_parent, starter_bit)\n        forest: list[DerivationTree]\n        cached = self._cached_forest(cache_key)\n        if cached is not None:\n            forest = cached\n", None,
+      more=(("        self._cache: dict[\n            tuple[\n                str | bytes,\n                NonTerminal,\n                ParsingMode,\n                Optional[DerivationTree],\n                int,\n            ],\n            list[DerivationTree],\n        ] = {}\n",
+             "        self._cache: dict = {}\n\n    def _cached_forest(self, key):\n        forest = self._cache.get(key)\n        return forest\n\n    def _cache_forest(self, key, forest) -> None:\n        self._cache[key] = forest\n        while len(self._cache) > 2048:\n            self._cache.pop(next(iter(self._cache)))\n"),
+            ("        self._cache[cache_key] = forest\n", "        self._cache_forest(cache_key, forest)\n"))),
     M("twin-api-genexp-to-list", _API, "            if all(constraint.check(tree) for constraint in self.constraints):", "            if all([constraint.check(tree) for constraint in self.constraints]):", None),
 ]
